@@ -104,6 +104,16 @@ def check(ctx):
             c = t.get("callee")
             if c is None:
                 continue
+            name0 = c.get("path") or ""
+            if P.OVERFLOW_INHERITING.match(name0):
+                n_sites += 1
+                pv = pv or Prov(f)
+                args = [pv.operand_term(a, bi, "term") for a in t["args"]]
+                ctx.ob("R-2", "overflow-inheriting:%s:%s" % (f.key, name0.split("::")[-1]), False,
+                       "call of %s in %s panics on overflow in builds with overflow checks (e.g. %s on the minimum value) and no rule discharges it%s" % (
+                           name0, f.key, name0.split("::")[-1], " (reachable from a decode entry point)" if f.key in dreach else ""),
+                       where=f.where(bi), detail={"args": [show(a)[:80] for a in args]})
+                continue
             if not (c.get("track_caller") or c.get("never")):
                 continue
             name = callee_path(t)
